@@ -392,7 +392,7 @@ var c09KindsPlainChild = []string{"copychild", "copychild", "copychild", "copyfi
 var c09Kinds = []string{"rtsizechild", "copyfield", "copyfield", "copyfield", "copychild", "copychild", "truncate", "size", "marshal", "marshal", "marshalto", "cssize", "csmarshal", "rtsize", "rtmarshal", "unmarshal", "reset", "clone"}
 
 func TestC09(t *testing.T) {
-	rec := ev.New("C09", "case = one live message of a generated type + a pool of 2..4 generated values + a program of <= 25 ops over {copy a field (or a field of an existing child) from a pool value = set / clear / grow / shrink through plain reflection stores, empty a repeated field in place (non-nil slice of length 0), Size, Marshal, MarshalTo, csproto.Size, csproto.Marshal, the owning runtime's own Size and Marshal - on the message, or directly on a child of a well-known type (1 in 8 programs target types with such a child) -, Unmarshal(pool value), Reset, Clone (continue on the clone)}; invariant after every Marshal/MarshalTo/csproto.Marshal: the bytes equal Marshal of a FRESH message populated from the model of the current contents (up to map-entry order when a map has >= 2 entries), no op panics; the concurrent clause runs in a -race binary (TestC09Race); non-trivial = a Marshal* preceded by a Size/Marshal (own, csproto's or the runtime's) and a later mutation that changed the encoded length; distinct by program")
+	rec := ev.New("C09", "case = one live message of a generated type + a pool of 2..4 generated values + a program of <= 25 ops over {copy a field (or a field of an existing child) from a pool value = set / clear / grow / shrink through plain reflection stores, empty a repeated field in place (non-nil slice of length 0), Size, Marshal, MarshalTo, csproto.Size, csproto.Marshal, the owning runtime's own Size and Marshal - on the message, or directly on a child of a well-known type (1 in 8 programs target types with such a child) -, Unmarshal(pool value), Reset, Clone (continue on the clone)}; invariant after every Marshal/MarshalTo/csproto.Marshal: the bytes equal Marshal of a FRESH message populated from the model of the current contents (up to map-entry order when a map has >= 2 entries), no op panics; additionally <= 14-op histories through csproto on a plain gogo message generated with gogo's sizer but without its marshaler plug-in (gogo's test.NinOptStruct: Size() method + table-driven XXX_Marshal reading nested size caches), oracle = gogo's Marshal of a fresh deep copy; the concurrent clause runs in a -race binary (TestC09Race); non-trivial = a Marshal* preceded by a Size/Marshal (own, csproto's or the runtime's) and a later mutation that changed the encoded length; distinct by program")
 	defer rec.Write()
 	useRecorder(rec)
 	defer func() { t.Log(rec.Summary()); fmt.Print(rec.SurveyReport()) }()
@@ -402,6 +402,9 @@ func TestC09(t *testing.T) {
 		return
 	}
 	withPlain := plainChildTypes(mine)
+	if shard, _ := ev.Shard(); shard == 0 {
+		c09GogoHistories(t, rec, ev.N(3000, 60000)*func() int { _, n := ev.Shard(); return n }())
+	}
 	ev.Rapid(t, ev.N(16000, 400000), 9, func(rt *rapid.T) {
 		mt := rapid.SampledFrom(mine).Draw(rt, "type")
 		kinds := c09Kinds
